@@ -2,7 +2,8 @@ import EmmyVerif.Model.Locks
 import EmmyVerif.Gen.LockSites
 import EmmyVerif.Drv.Util
 /-! Driver ops of the `Locks` family (C28).
-Programs are comma-separated actions `a<lock><r|w>` / `r<lock>` (e.g. `a1r,a2r,r2,r1`), `-` = empty. -/
+Programs are comma-separated actions `a<lock><r|w>` / `r<lock>` / `w<task>.<task>…` (wait for tasks), e.g.
+`a1r,w2.3,r1`; `-` = empty. -/
 namespace Drv.Locks
 open _root_.Locks
 
@@ -14,6 +15,7 @@ def parseAct (s : String) : Option Act :=
     | 'w' :: ds => (String.ofList ds.reverse).toNat?.map (fun l => Act.acq l .w)
     | _ => none
   | 'r' :: ds => (String.ofList ds).toNat?.map Act.rel
+  | 'w' :: ds => ((String.ofList ds).splitOn ".").mapM String.toNat? |>.map Act.wait
   | _ => none
 
 def parseProg (s : String) : Option Prog :=
@@ -23,11 +25,13 @@ def showLabel : Label → String
   | .req i => s!"req{i}"
   | .grant l => s!"grant{l}"
   | .rel i => s!"rel{i}"
+  | .wait i => s!"wait{i}"
 
 def parseLabel (s : String) : Option Label :=
   if s.startsWith "req" then (s.drop 3).toString.toNat?.map Label.req
   else if s.startsWith "grant" then (s.drop 5).toString.toNat?.map Label.grant
   else if s.startsWith "rel" then (s.drop 3).toString.toNat?.map Label.rel
+  else if s.startsWith "wait" then (s.drop 4).toString.toNat?.map Label.wait
   else none
 
 def showSite (s : Site) : String :=
@@ -37,7 +41,13 @@ def handle (op : String) (args : List String) : Option String :=
   match op, args with
   | "disciplined", [p] => do
     let p ← parseProg p
-    pure s!"ok {discB [] p}"
+    pure s!"ok {discB (fun _ => []) [] p}"
+  | "disciplinedset", ps => do
+    -- a set of tasks with waits: the need table is computed, checked (`wfB`) and used
+    let ps ← ps.mapM parseProg
+    let need := needOf ps
+    pure s!"ok wf={wfB need ps} disciplined={ps.all (fun p => discB need [] p)}"
+  | "awaits", [] => pure s!"ok total={Gen.lockAwaits.length} allowed={Gen.lockAwaits.all (·.allowed)}"
   | "conforms", [p] => do
     let p ← parseProg p
     pure s!"ok {conformsB Gen.lockSites [] p}"
